@@ -9,27 +9,35 @@
  * reading stops only at the end of the input or at a reported error (.complete clause), capacity >= length,
  * representation invariant established, seekable or not, buffers from empty to many 4096-byte chunks.
  *
+ * The read loops reallocate the buffer they fill: under a loop contract the havocked buffer pointer can be any object
+ * and cbmc's symbolic execution does not finish (> 5 min), so init_from_fd / init_from_fp are BOUNDED units (tier B):
+ * the loop is unwound, the input arrives in at most 3 delivering calls.  new_from_* (loop-free, callee contract) are P.
+ *
  * On this tree BOTH readers fail (known_findings C07-mbuff-init_from_fd, C07-mbuff-init_from_fp): the unit
- * text and the loop contracts (annot/mbuff.c.mbuff.ann) are written for the proposed fixes
+ * text is written for the proposed fixes
  * findings/proposed/C07_init_from_fd.diff and C07_init_from_fp.diff, against which all four units are proved. */
 /*@unit
 name: mbuff.init_from_fd
-define: VERIF_MB_GHOSTCOPY, VERIF_MB_GHOST1, U_FD
+define: VERIF_MB_GHOSTCOPY, VERIF_MB_GHOST1, VERIF_IN_MAXCALLS=3, U_FD
 src: mbuff.c, obj.c
 enforce: spif_mbuff_init_from_fd
 backend: sat
-loops: 1
+tier: B
+bound: the input is delivered in at most 3 read()/fread() calls that return data (each up to one 4096-byte chunk, so up to 12288 bytes and two capacity doublings); size, position, seekability, short counts, errors and every byte are symbolic
+unwind: 5
 objbits: 6
 flags: --slice-formula
 timeout: 400
 */
 /*@unit
 name: mbuff.init_from_fp
-define: VERIF_MB_GHOSTCOPY, VERIF_MB_GHOST1, U_FP
+define: VERIF_MB_GHOSTCOPY, VERIF_MB_GHOST1, VERIF_IN_MAXCALLS=3, U_FP
 src: mbuff.c, obj.c
 enforce: spif_mbuff_init_from_fp
 backend: sat
-loops: 1
+tier: B
+bound: the input is delivered in at most 3 read()/fread() calls that return data (each up to one 4096-byte chunk, so up to 12288 bytes and two capacity doublings); size, position, seekability, short counts, errors and every byte are symbolic
+unwind: 5
 objbits: 6
 flags: --slice-formula
 timeout: 400
@@ -65,7 +73,7 @@ flags: --slice-formula
 
 /* what an init_from_* call establishes on raw storage `o` */
 #define READER_ASSIGNS(o) \
-    __CPROVER_assigns(MBUFF_FRAME_INIT(o), vg_in_pos, vg_in_eof, vg_in_err, vg_in_rderr)
+    __CPROVER_assigns(MBUFF_FRAME_INIT(o), vg_in_pos, vg_in_eof, vg_in_err, vg_in_rderr, vg_in_calls)
 #define READER_ENSURES(o) \
     __CPROVER_ensures(RV == TRUE) \
     /* the block is allocated by the call (is_fresh): same text when the contract is used at a call site */ \
@@ -79,7 +87,7 @@ flags: --slice-formula
 
 #ifdef U_FD
 spif_bool_t spif_mbuff_init_from_fd(spif_mbuff_t self, int fd)
-__CPROVER_requires(__CPROVER_is_fresh(self, sizeof(*self)) && fd >= 0 && VG_IN_OK && !vg_in_rderr && !vg_in_err)
+__CPROVER_requires(__CPROVER_is_fresh(self, sizeof(*self)) && fd >= 0 && VG_IN_OK && !vg_in_rderr && !vg_in_err && vg_in_calls == 0)
 READER_ASSIGNS(self)
 READER_ENSURES(self)
 ;
@@ -93,7 +101,7 @@ void harness(void)
 
 #ifdef U_FP
 spif_bool_t spif_mbuff_init_from_fp(spif_mbuff_t self, FILE *fp)
-__CPROVER_requires(__CPROVER_is_fresh(self, sizeof(*self)) && fp != NULL && VG_IN_OK && !vg_in_rderr && !vg_in_err)
+__CPROVER_requires(__CPROVER_is_fresh(self, sizeof(*self)) && fp != NULL && VG_IN_OK && !vg_in_rderr && !vg_in_err && vg_in_calls == 0)
 READER_ASSIGNS(self)
 READER_ENSURES(self)
 ;
@@ -109,22 +117,22 @@ void harness(void)
 /* callee contract (proved by the init_from_* units), used at the call site */
 # ifdef U_NEW_FD
 spif_bool_t spif_mbuff_init_from_fd(spif_mbuff_t self, int fd)
-__CPROVER_requires(__CPROVER_is_fresh(self, sizeof(*self)) && fd >= 0 && VG_IN_OK && !vg_in_rderr && !vg_in_err)
+__CPROVER_requires(__CPROVER_is_fresh(self, sizeof(*self)) && fd >= 0 && VG_IN_OK && !vg_in_rderr && !vg_in_err && vg_in_calls == 0)
 READER_ASSIGNS(self)
 READER_ENSURES(self)
 ;
 spif_mbuff_t spif_mbuff_new_from_fd(int fd)
-__CPROVER_requires(fd >= 0 && VG_IN_OK && !vg_in_rderr && !vg_in_err)
+__CPROVER_requires(fd >= 0 && VG_IN_OK && !vg_in_rderr && !vg_in_err && vg_in_calls == 0)
 # else
 spif_bool_t spif_mbuff_init_from_fp(spif_mbuff_t self, FILE *fp)
-__CPROVER_requires(__CPROVER_is_fresh(self, sizeof(*self)) && fp != NULL && VG_IN_OK && !vg_in_rderr && !vg_in_err)
+__CPROVER_requires(__CPROVER_is_fresh(self, sizeof(*self)) && fp != NULL && VG_IN_OK && !vg_in_rderr && !vg_in_err && vg_in_calls == 0)
 READER_ASSIGNS(self)
 READER_ENSURES(self)
 ;
 spif_mbuff_t spif_mbuff_new_from_fp(FILE *fp)
-__CPROVER_requires(fp != NULL && VG_IN_OK && !vg_in_rderr && !vg_in_err)
+__CPROVER_requires(fp != NULL && VG_IN_OK && !vg_in_rderr && !vg_in_err && vg_in_calls == 0)
 # endif
-__CPROVER_assigns(vg_in_pos, vg_in_eof, vg_in_err, vg_in_rderr)
+__CPROVER_assigns(vg_in_pos, vg_in_eof, vg_in_err, vg_in_rderr, vg_in_calls)
 __CPROVER_ensures(__CPROVER_is_fresh(RV, sizeof(*RV)))
 __CPROVER_ensures(MBUFF_POST(RV))
 __CPROVER_ensures(VG_IN_OK && POS0 <= vg_in_pos && RV->len == vg_in_pos - POS0)
